@@ -353,6 +353,7 @@ func (l *svcLab) eventsFrom(a net.Addr) []event.Event {
 func (l *svcLab) settle(a net.Addr, want int, max time.Duration) []event.Event {
 	deadline := time.Now().Add(max)
 	last, stable := -1, 0
+	extended := false
 	for {
 		evs := l.eventsFrom(a)
 		if len(evs) == last {
@@ -364,6 +365,12 @@ func (l *svcLab) settle(a net.Addr, want int, max time.Duration) []event.Event {
 			return evs
 		}
 		if time.Now().After(deadline) {
+			if len(evs) < want && !extended {
+				// a loaded machine: give the reporter goroutines more time before judging events missing
+				extended = true
+				deadline = time.Now().Add(2 * time.Second)
+				continue
+			}
 			return evs
 		}
 		select {
